@@ -230,7 +230,8 @@ def typed_case(item):
                                   'datetime': dict(format='%d.%m.%Y %H.%M.%S')}.get(tp, {}))
                 fields.append((n, tp, extra))
             rows = [{n: rand_value(r, tp, tier, 1000 if cfg['temporal'] else 1) for n, tp in zip(names, types)} for _ in range(r.randint(0, 5))]
-            resources.append(('res%d' % ri, fields, rows, None, ({'missingValues': list(cfg['missing'])} if cfg.get('missing') else None)))
+            # resource names (hence file names) with dots that share everything before the first dot: two resources, two files
+            resources.append((('res%d' if cfg.get('missing') else 'data.v%d') % ri, fields, rows, None, ({'missingValues': list(cfg['missing'])} if cfg.get('missing') else None)))
         opts = dict(add_filehash_to_path=cfg['filehash'])
         if cfg['temporal']:
             opts['temporal_format_property'] = 'outputFormat'
